@@ -211,7 +211,9 @@ where
                 Ok(LoadOut { val: S::full_to_val(&t), borrows: vec![], region: None, tail_zero: None, prefix_is_file: None })
             }
             _ => {
-                let file = std::fs::read(path)?;
+                // contents for the region checks; a path that cannot be read (missing, a directory) must still
+                // reach the loader under test
+                let file = std::fs::read(path).unwrap_or_default();
                 let file = &file[..];
                 let case: epserde::deser::MemCase<<S::T as DeserializeInner>::DeserType<'static>> = match loader {
                     Loader::LoadMem => <S::T as Deserialize>::load_mem(path)?,
